@@ -310,6 +310,12 @@ func c05RunMode(w *W, liveness bool) {
 	var calls []*blockingCall
 	mk := func() *blockingCall {
 		b := &blockingCall{}
+		if simrt.Choose(5) == 0 {
+			// an uncancellable caller: only the operation it waits for (or
+			// Close) can release it
+			b.ctx, b.cancel = context.Background(), func() {}
+			return b
+		}
 		b.ctx, b.cancel = context.WithCancel(w.Ctx)
 		calls = append(calls, b)
 		return b
